@@ -3,7 +3,7 @@
   (mofun/atoms.py: Atoms.save_lmpdat, Atoms.load_lmpdat, label_atoms, Atoms.load / Atoms.save;
    mofun/helpers.py: use_or_open).
 
-  A `Line` is what the reader sees of one text line: `unprocessed_line.split('#')`, `.strip()`, `.split()`.
+  A `Line` is what the reader sees of one text line: `unprocessed_line.split('#', 1)`, `.strip()`, `.split()`.
   Numbers in the file are fixed-point integers at the printed precision (micro-units for `%10.6f`):
   the writer rounds a value to micro-units (`quantMicro`, round-half-even like C's printf), prints the
   integer with a decimal point (`showMicro`), and the reader reads it back exactly (`readMicro`).
@@ -65,7 +65,7 @@ def hasNewline (s : String) : Bool := s.toList.any (fun c => c == '\n' || c == '
 /-! ## lines -/
 
 /-- one line as the reader sees it: blank-separated tokens of the part before the first `#`; the stripped text
-    after the first `#` (`none` when the line has no `#`; it contains a `#` when the line had more than one) -/
+    after the first `#` (`none` when the line has no `#`; further `#` belong to the comment) -/
 structure Line where
   tokens : List String
   comment : Option String
@@ -299,7 +299,7 @@ def saveLmp (a : Atoms) (st : Style) : Except Err (List Line) :=
 
 /-- what the loop accumulates -/
 structure PData where
-  masses : List (String × Option String) := []    -- (tup[1], comment) per Masses line
+  masses : List (Int × String × Option String) := []    -- (int(tup[0]), tup[1], comment) per Masses line
   pair : List String := []
   bond : List String := []
   angle : List String := []
@@ -350,9 +350,16 @@ def readLoHi (toks : List String) : Except Err Int :=
 def push (sec : Sec) (s : PData) (l : Line) : Except Err PData :=
   match sec with
   | .masses =>
+    -- `masses.append((int(tup[0]), tup[1], comment))`
     match l.tokens with
-    | _ :: m :: _ => .ok { s with masses := s.masses ++ [(m, l.comment)] }
-    | _ => .error .index
+    | i :: rest =>
+      match readInt i with
+      | none => .error (.reject "value")
+      | some k =>
+        match rest with
+        | m :: _ => .ok { s with masses := s.masses ++ [(k, m, l.comment)] }
+        | [] => .error .index
+    | [] => .error .index
   | .pairCoeffs => .ok { s with pair := s.pair ++ [coeffOf " " l] }
   | .bondCoeffs => .ok { s with bond := s.bond ++ [coeffOf " " l] }
   | .angleCoeffs => .ok { s with angle := s.angle ++ [coeffOf "  " l] }
@@ -384,22 +391,21 @@ def header (s : PData) (l : Line) : Except Err PData :=
     | _ => .error (.reject "value")
   else .ok s
 
-/-- the body of `for unprocessed_line in f` -/
+/-- the body of `for unprocessed_line in f`.  The comment is the text after the FIRST `#`
+    (`unprocessed_line.split('#', 1)`), so further `#` are part of the comment. -/
 def step (s : PState) (l : Line) : Except Err PState :=
-  if l.comment.any hasHash then .error (.reject "value")   -- `line, comment = unprocessed_line.split('#')`
-  else
-    match sectionOf l.tokens with
-    | some sec => .ok { s with cur := some sec, start := true }
-    | none =>
-      if l.tokens.isEmpty then
-        -- a blank line right after a section name does not end the section; the next one does
-        .ok { s with cur := if s.start then s.cur else none, start := false }
-      else
-        match (match s.cur with
-          | some sec => push sec s.d l
-          | none => header s.d l) with
-        | .ok d => .ok { s with d := d }
-        | .error e => .error e
+  match sectionOf l.tokens with
+  | some sec => .ok { s with cur := some sec, start := true }
+  | none =>
+    if l.tokens.isEmpty then
+      -- a blank line right after a section name does not end the section; the next one does
+      .ok { s with cur := if s.start then s.cur else none, start := false }
+    else
+      match (match s.cur with
+        | some sec => push sec s.d l
+        | none => header s.d l) with
+      | .ok d => .ok { s with d := d }
+      | .error e => .error e
 
 def run : PState → List Line → Except Err PState
   | s, [] => .ok s
@@ -474,6 +480,14 @@ def cellOf (s : PData) : Option Mat3 :=
       some ⟨⟨ofMicro s.cellx, 0, 0⟩, ⟨0, ofMicro s.celly, 0⟩, ⟨0, 0, ofMicro s.cellz⟩⟩
   else none
 
+/-- `x` put into a list that is ascending by id, before the first entry whose id is not smaller -/
+def insertById {β} (x : Int × β) : List (Int × β) → List (Int × β)
+  | [] => [x]
+  | y :: ys => if x.1 ≤ y.1 then x :: y :: ys else y :: insertById x ys
+
+/-- `masses.sort(key=lambda m: m[0])`: ascending by type id, entries with equal ids keep their order (stable) -/
+def sortById {β} (l : List (Int × β)) : List (Int × β) := l.foldr insertById []
+
 /-- element names: the guess when it succeeds, else the type numbers for ALL types -/
 def elementsOf (guess : List Rat → Option (List String)) (masses : List Rat) : List String :=
   match guess masses with
@@ -487,7 +501,9 @@ def labelsOf (comments : List (Option String)) (elements : List String) : List S
 /-- everything `load_lmpdat` does after the loop.  `guess` is `guess_elements_from_masses` (property C14):
     `none` when it raises. -/
 def finish (guess : List Rat → Option (List String)) (s : PData) (st : Style) : Except Err Atoms := do
-  let masses ← match mapOpt (fun m => readMicro m.1) s.masses with
+  -- every Masses line binds its mass and its label to its type id, whatever the order of the lines
+  let byId := sortById s.masses
+  let masses ← match mapOpt (fun m => readMicro m.2.1) byId with
     | some m => pure (m.map ofMicro)
     | none => throw (.reject "value")
   let atomTable ← readTable readMicro s.atoms
@@ -495,10 +511,10 @@ def finish (guess : List Rat → Option (List String)) (s : PData) (st : Style) 
   let angles ← termsOf s.angles
   let dihedrals ← termsOf s.dihedrals
   let impropers ← termsOf s.impropers
-  if atomTable.isEmpty then throw .index          -- `atoms[:, 1]` on an empty 1-d array
+  -- a file without atoms gives an empty (0 × 7) table: no atoms, the type tables are kept
   let atoms ← mapExc (atomOfRow st) atomTable
   let elements := elementsOf guess masses
-  let labels := labelsOf (s.masses.map (·.2)) elements
+  let labels := labelsOf (byId.map (·.2.2)) elements
   let bonds ← mapExc termOfRow bonds
   let angles ← mapExc termOfRow angles
   let dihedrals ← mapExc termOfRow dihedrals
